@@ -63,6 +63,7 @@ package common
 //@   ensures reported: ok <==> gcd(val(a), val(n)) == 1
 //@   ensures none: !ok ==> ia == nil
 //@   ensures inverse: ok ==> ia != nil && fresh(ia) && (val(a) * val(ia) - 1) % val(n) == 0
+//@   ensures positive: ok && val(n) > 1 && val(a) != 0 ==> val(ia) >= 1 && val(ia) <= 2 * val(n)
 //@   modifies nothing
 //@   mustfail canary: !ok
 
@@ -84,6 +85,9 @@ package common
 //@   requires start <= 65536 && length <= 65536 && length >= 1
 //@   ensures prime: err == nil ==> p != nil && isprime(val(p)) && val(p) >= pow2(start)
 //@   ensures fail: err != nil ==> p == nil
+//@   ensures fresh: err == nil ==> fresh(p)
+//@   modifies nothing
+//@   assumeframe reading from the io.Reader changes only the reader's own state, which no code of this library observes; everything else the function writes is allocated by it
 //@   loop 0 invariant p != nil && fresh(p) && bigMod != nil && fresh(bigMod) && offset != nil && fresh(offset) && startVal != nil && fresh(startVal) && val(startVal) == pow2(start) && len(bytes) == (length + 7) / 8 && fresh(bytes) && 1 <= b && b <= 8 && p != bigMod && p != offset && p != startVal && bigMod != offset && bigMod != startVal && offset != startVal
 //@   loop 1 invariant p != nil && fresh(p) && bigMod != nil && fresh(bigMod) && offset != nil && fresh(offset) && startVal != nil && fresh(startVal) && val(startVal) == pow2(start) && len(bytes) == (length + 7) / 8 && fresh(bytes) && 1 <= b && b <= 8 && 0 <= $i && $i <= len(SmallPrimes) && val(p) == val(startVal) + val(offset) && val(offset) >= 0 && p != bigMod && p != offset && p != startVal && bigMod != offset && bigMod != startVal && offset != startVal
 //@   mustfail canary: err != nil
